@@ -201,3 +201,93 @@ example (sp : Sp) (h : sp ≠ Sp.callSite) :
   · simp at hs
 
 end AsModel
+
+namespace AsModel
+
+/-- The user's own tokens inside one field operation: a method's name and arguments, a named
+field's identifier, an index expression. -/
+def FieldOp.userToks : FieldOp → Toks
+  | .method name _ args => ⟨.plain name.name, name.sp⟩ :: (args.map (·.toks)).flatten
+  | .named name _ => [⟨.plain name.name, name.sp⟩]
+  | .index e _ => e.toks
+  | _ => []
+
+/-- **Every token a field-operation step adds carries that operation's own span** (or is one
+of the user's own tokens inside the step): `. name ( args )`, `. await`, `. name`, `. 0`,
+`[ e ]`, the run of `*`s.  Since /repo 04cedd8 this includes the index literal of a tuple-index
+step, which used to be created at the call site - an ill-typed `t.0` was reported on the whole
+macro invocation. -/
+theorem C20_field_step_tokens (value : Toks) (v : VExpr) (op : FieldOp) :
+    ∀ t ∈ (applyOp v op).toks value, t ∈ v.toks value ∨ t.sp = op.span ∨ t ∈ op.userToks := by
+  cases op with
+  | deref count sp =>
+    intro t ht
+    simp only [applyOp, VExpr.toks, preToks, List.flatMap_append, List.mem_append] at ht
+    rcases ht with (ht | ht) | ht
+    · obtain ⟨x, hx, htx⟩ := List.mem_flatMap.1 ht
+      rw [List.mem_replicate] at hx
+      obtain ⟨_, rfl⟩ := hx
+      exact Or.inr (Or.inl (mem_tq htx))
+    · exact Or.inl (by simp only [VExpr.toks, preToks, List.mem_append]; exact Or.inl ht)
+    · exact Or.inl (by simp only [VExpr.toks, List.mem_append]; exact Or.inr ht)
+  | method name sp args =>
+    intro t ht
+    simp only [applyOp, VExpr.toks, Core.toks, List.mem_append, List.mem_singleton] at ht
+    rcases ht with ht | (((((ht | ht) | ht) | ht) | ht) | ht)
+    · exact Or.inl (by simp only [VExpr.toks, List.mem_append]; exact Or.inl ht)
+    · exact Or.inl (by simp only [VExpr.toks, List.mem_append]; exact Or.inr ht)
+    · exact Or.inr (Or.inl (mem_tq ht))
+    · exact Or.inr (Or.inr (by simp [FieldOp.userToks, ht]))
+    · exact Or.inr (Or.inl (mem_tq ht))
+    · rcases mem_sepBy ht with h' | h'
+      · exact Or.inr (Or.inl (mem_tq h'))
+      · exact Or.inr (Or.inr (by simp only [FieldOp.userToks, List.mem_cons]; exact Or.inr h'))
+    · exact Or.inr (Or.inl (mem_tq ht))
+  | await sp =>
+    intro t ht
+    simp only [applyOp, VExpr.toks, Core.toks, List.mem_append] at ht
+    rcases ht with ht | (ht | ht)
+    · exact Or.inl (by simp only [VExpr.toks, List.mem_append]; exact Or.inl ht)
+    · exact Or.inl (by simp only [VExpr.toks, List.mem_append]; exact Or.inr ht)
+    · exact Or.inr (Or.inl (mem_tq ht))
+  | named name sp =>
+    intro t ht
+    simp only [applyOp, VExpr.toks, Core.toks, List.mem_append, List.mem_singleton] at ht
+    rcases ht with ht | ((ht | ht) | ht)
+    · exact Or.inl (by simp only [VExpr.toks, List.mem_append]; exact Or.inl ht)
+    · exact Or.inl (by simp only [VExpr.toks, List.mem_append]; exact Or.inr ht)
+    · exact Or.inr (Or.inl (mem_tq ht))
+    · exact Or.inr (Or.inr (by simp [FieldOp.userToks, ht]))
+  | unnamed i sp =>
+    intro t ht
+    simp only [applyOp, VExpr.toks, Core.toks, List.mem_append] at ht
+    rcases ht with ht | ((ht | ht) | ht)
+    · exact Or.inl (by simp only [VExpr.toks, List.mem_append]; exact Or.inl ht)
+    · exact Or.inl (by simp only [VExpr.toks, List.mem_append]; exact Or.inr ht)
+    · exact Or.inr (Or.inl (mem_tq ht))
+    · exact Or.inr (Or.inl (mem_tq ht))
+  | index e sp =>
+    intro t ht
+    simp only [applyOp, VExpr.toks, Core.toks, List.mem_append] at ht
+    rcases ht with ht | (((ht | ht) | ht) | ht)
+    · exact Or.inl (by simp only [VExpr.toks, List.mem_append]; exact Or.inl ht)
+    · exact Or.inl (by simp only [VExpr.toks, List.mem_append]; exact Or.inr ht)
+    · exact Or.inr (Or.inl (mem_tq ht))
+    · exact Or.inr (Or.inr ht)
+    · exact Or.inr (Or.inl (mem_tq ht))
+
+/-- The pinned rendering of a tuple-index step (before /repo 04cedd8): the index literal at the
+call site.  It does not satisfy the statement: for an operation whose span is not the call site
+the literal's token has none of the three origins. -/
+theorem C20_pinned_tuple_index_counterexample (sp : Sp) (h : sp ≠ Sp.callSite) (i : Nat) :
+    ∀ t ∈ tq cs (toString i), ¬ (t ∈ ([] : Toks) ∨ t.sp = (FieldOp.unnamed i sp).span ∨
+      t ∈ (FieldOp.unnamed i sp).userToks) := by
+  intro t ht ho
+  have hts : t.sp = cs := mem_tq ht
+  rcases ho with ho | ho | ho
+  · simp at ho
+  · exact h (by have : (FieldOp.unnamed i sp).span = sp := rfl
+                rw [this] at ho; rw [← ho, hts]; rfl)
+  · simp [FieldOp.userToks] at ho
+
+end AsModel
